@@ -58,7 +58,7 @@ def run(ck):
     ck.rule = ('stencils: every (derivative 1-4, order 1-8, layout) the code accepts + seeded custom integer offset sets; '
                'matrices: sizes from the stencil span upwards, all bc kinds; a case is non-trivial when the stencil has >= 2 points '
                'and distinct when its (kind, derivative, order/offsets, layout, size, bc) tuple is new')
-    ck.check_props(required=['C18_stencil_exact_for_all_polynomials', 'C18_periodic_wraps', 'C18_steps_count'])
+    ck.check_props(required=['C18_stencil_exact_for_all_polynomials', 'C18_neumann_row_exact_for_all_polynomials', 'C18_periodic_wraps', 'C18_steps_count'])
 
     # ------------------------------------------------------------------ 1. stencil tables
     stencils = []   # (label, der, steps(list int), coeff(list float))
@@ -221,6 +221,7 @@ def run(ck):
 
     # ------------------------------------------------------------------ 3. Dirichlet / Neumann closures
     ext_rows = []    # (label, der, steps, weights) -> Coq validator
+    neu_rows = []    # (label, der, steps, weights, c, g, n) -> Coq validator check_neumann_row
     bcs = ['dirichlet', 'neumann', ('dirichlet', 'neumann'), ('neumann', 'dirichlet')]
     combos = []
     for der in (1, 2, 3, 4):
@@ -303,6 +304,22 @@ def run(ck):
                         steps = [j - r for j in cols] + [size - r]
                         w = [float(D1[r, j]) for j in cols] + [float(b1[r])]
                         rest = [j for j in range(size) if j not in cols and D1[r, j] != 0.0]
+                    elif (left and bcl == 'neumann') or (right and bcr == 'neumann'):
+                        # Neumann row: b_coeff[1:] - (b_0/n_0) n_coeff[1:] on the first (last) max(npts-1, order) columns, and
+                        # the boundary vector carries (b_0/n_0) * val * dx: with val = dx = 1 it IS the coefficient of h p'(x_b)
+                        width = max(npts - 1, order)
+                        cols = list(range(0, width)) if left else list(range(size - width, size))
+                        if width > size:
+                            continue
+                        steps = [j - r for j in cols]
+                        w = [float(D1[r, j]) for j in cols]
+                        rest = [j for j in range(size) if j not in cols and D1[r, j] != 0.0]
+                        if rest:
+                            ck.violation('Neumann boundary row %d has entries outside the closure support' % r, {'case': lab, 'row': r, 'cols': rest},
+                                         match={'kind': 'closure-support'})
+                        g = -(r + 1) if left else size - r
+                        neu_rows.append((lab + (r,), der, steps, w, float(b1[r]), g, order + 1))
+                        continue
                     elif not left and not right:
                         steps = [int(s) for s in s0]
                         w = [float(D1[r, r + s]) for s in steps]
@@ -346,6 +363,30 @@ def run(ck):
                              {'case': lab, 'steps': steps, 'weights': w, 'relative_defect': float(exact_defect(w, steps, der))},
                              match={'kind': 'closure-row'})
         ck.obligation('check_stencil on %d Dirichlet boundary rows' % len(ext_rows), nbad == 0)
+
+    if neu_rows:
+        L = ['From Coq Require Import ZArith List Bool.', 'From PySDC Require Import Base.Dyadic Model.FD.',
+             'Import ListNotations.', 'Open Scope Z_scope.', '']
+        L.append('Definition rows : list (list Z * list dy * dy * Z * nat * nat) := [')
+        L.append(';\n'.join('  (%s, %s, %s, %s, %d%%nat, %d%%nat)' % (coq_list([zlit(s) for s in steps]), coq_list([dy_lit(c) for c in w]), dy_lit(cc), zlit(g), der, n)
+                            for lab, der, steps, w, cc, g, n in neu_rows))
+        L.append('].')
+        L.append("Eval vm_compute in map (fun '(s, w, c, g, d, n) => check_neumann_row s w c g d %s n) rows." % rtol)
+        rc, out = ck.coqc(ck.write_gen('Data_neumann.v', '\n'.join(L) + '\n'), timeout=900)
+        if rc != 0:
+            ck.obligation('Data_neumann.v evaluates', False, out[-1500:])
+            ck.violation('generated Neumann row table does not compile', {'log': out[-3000:]}, match={'kind': 'gen'}, no_input=True)
+            return
+        res = parse_coq_value(eval_outputs(out)[0])
+        nbad = 0
+        for (lab, der, steps, w, cc, g, n), ok in zip(neu_rows, res):
+            ck.evaluations += 1
+            if not ok:
+                nbad += 1
+                ck.violation('Neumann boundary row (with its boundary-vector coefficient) is not exact for polynomials of degree < %d: %s' % (n, lab),
+                             {'case': lab, 'steps': steps, 'weights': w, 'b_coefficient': cc, 'boundary_offset': g},
+                             match={'kind': 'neumann-row'})
+        ck.obligation('check_neumann_row on %d Neumann boundary rows' % len(neu_rows), nbad == 0)
 
     # ------------------------------------------------------------------ 4. dx scaling, n-D Kronecker sums, grid
     import scipy.sparse as sp
